@@ -95,7 +95,7 @@ def mk_input(rng, max_rows=8, max_len=5, recipe=None, recipes=None, corner=None,
         schema, rows = content
     recipe = recipe or rng.choice(recipes or gen.LAYOUTS)
     history = recipe == "history"
-    base_recipe = rng.choice([r for r in (recipes or gen.LAYOUTS) if r not in ("history", "missing_hidden")]) if history else recipe
+    base_recipe = rng.choice([r for r in (recipes or gen.LAYOUTS) if r != "history"]) if history else recipe
     ca = gen.make_layout(rng, schema, rows, base_recipe)
     built = attempt(lambda: NEA(ca))
     history_failed = None
@@ -462,7 +462,7 @@ def op_concat(rng, inp):
     all_empty = rng.random() < 0.3      # [] + rows: a concatenation is a NEW column also when only one part has rows
     for _ in range(rng.randint(1, 2)):
         rows = gen.gen_rows(rng, schema, 0 if all_empty else rng.randint(0, 4))
-        others.append(mk_input(rng, content=(schema, rows), recipes=[l for l in gen.LAYOUTS if l != "missing_hidden"]))
+        others.append(mk_input(rng, content=(schema, rows), recipes=list(gen.LAYOUTS)))
     rng.shuffle(others)
     res = attempt(lambda: NEA._concat_same_type([o["arr"] for o in others]))
     ps = cq_list(o["P"] for o in others)
